@@ -3,7 +3,11 @@
 package p2p
 
 import (
+	"context"
+
 	pubsub "github.com/libp2p/go-libp2p-pubsub"
+
+	"github.com/shutter-network/rolling-shutter/rolling-shutter/p2pmsg"
 )
 
 // VerifNewMessaging returns a P2PMessaging that only carries the handler and
@@ -25,4 +29,18 @@ func (m *P2PMessaging) VerifCombinedValidator(topic string) pubsub.ValidatorEx {
 // VerifTopics returns the subscribed topics.
 func (m *P2PMessaging) VerifTopics() []string {
 	return m.topics()
+}
+
+// VerifReceiveSpan runs the tracing part of the receive path (what
+// P2PMessaging.handle does before it dispatches to the handlers when the node
+// has a P2P layer) with a node that was never started; the returned function
+// ends the span.
+func VerifReceiveSpan(
+	ctx context.Context,
+	traceContext *p2pmsg.TraceContext,
+	msg *pubsub.Message,
+	p2pMsg p2pmsg.Message,
+) (context.Context, func()) {
+	ctx, span, _ := newSpanForReceive(ctx, &P2PNode{}, traceContext, msg, p2pMsg)
+	return ctx, func() { span.End() }
 }
